@@ -109,9 +109,25 @@ def box_of(cfg):
     if cfg.get("bounds") is None:
         return None
     c, s = centre_scale(cfg)
+    if cfg["bounds"].get("abs_box"):
+        return np.array(cfg["bounds"]["abs_box"][0], dtype=float), np.array(cfg["bounds"]["abs_box"][1], dtype=float)
     half = np.array(cfg["bounds"]["half"]) * s
     mid = c + np.array(cfg["bounds"]["off"]) * half
-    return mid - half, mid + half
+    lo, hi = mid - half, mid + half
+    if cfg["bounds"].get("dtype"):
+        # whole-number limits (so that an integer / narrow array can hold them: see bounds_dtype)
+        lo, hi = np.floor(lo), np.ceil(hi)
+        hi = np.where(hi <= lo, lo + 1.0, hi)
+    return lo, hi
+
+
+def bounds_dtype(cfg, lo, hi):
+    """the dtype in which the limits are handed over: the requested one if it holds them exactly, else float64"""
+    dt = (cfg.get("bounds") or {}).get("dtype")
+    if not dt:
+        return float
+    ok = all(np.array_equal(a.astype(dt).astype(float), a) for a in (lo, hi))
+    return dt if ok else float
 
 
 def start_of(cfg):
@@ -173,6 +189,10 @@ def build(cfg, target=None, record=True):
     if box is not None:
         lo, hi = box[0].copy(), box[1].copy()
         info["lo"], info["hi"] = lo, hi
+        dt = bounds_dtype(cfg, lo, hi)
+        info["bounds_dtype"] = str(dt)
+        with np.errstate(all="ignore"):
+            lo, hi = lo.astype(dt), hi.astype(dt)
         bounds_arg = Bounds(lower=lo, upper=hi) if cfg["bounds"]["form"] == "Bounds" else (lo, hi)
     cls = cfg["cls"]
     with warnings.catch_warnings():
